@@ -463,6 +463,18 @@ def stepCore (e : Env) (line : String) : Env × String :=
       match evalPointNormSq e.w e.ev hp with
       | .ok (v, ev) => pure ({ e with ev := ev }, "ok " ++ showRat v)
       | .error _ => pure (e, "err ValueError")
+    | ["flow", hs, ms] =>
+      let h : Heur := if hs == "none" then .none else if hs == "trace" then .trace
+        else if hs.startsWith "logdet" then (match (hs.drop 6).toString.toNat? with | some n => .logdet n | none => .invalid)
+        else .invalid
+      let m : Mode := if ms == "dual" then .dual else if ms == "primal" then .primal else .invalid
+      let fl := solveFlow h m
+      let showCall : WCall → String
+        | .solve k => s!"solve{k}" | .recover k => s!"recover{k}" | .prepare => "prepare" | .heuristic => "heuristic"
+      pure (e, s!"calls={String.intercalate "," (fl.calls.map showCall)} duals={fl.dualsFrom} primal={fl.primalFrom} raises={fl.raises}")
+    | ["flowfail"] =>
+      let fl := failedFlow
+      pure (e, s!"calls=solve1 duals={fl.dualsFrom} primal={fl.primalFrom} raises={fl.raises}")
     | ["class.set", f] =>
       let hf ← lookup e f
       let (_, e) ← runM e (setClassConstraints hf)
